@@ -5,8 +5,11 @@ Line-protocol driver for the GENERATED statement-level translations that are val
 Run with:  lake env lean --run DriverGen.lean < ops.txt
 `gmeas nl labels[nl] np preds[np]` prints  <confusion | ERR> | <accuracy bits | ERR> | <per-label bits | ERR> | <purity bits | ERR>
 where the float tails are applied here in the order numpy applies them to short tables (sequential sums).
+`gnorm r c bits[r*c]` runs the translated `normalize` (`Gen/NormImp.lean`) on the r × c matrix of binary64 values with the sequential
+mean and population deviation, and prints the r*c result bits row by row (`ERR` when it does not return).
 -/
 import OpfVerif.Gen.MeasImp
+import OpfVerif.Gen.NormImp
 open Opf Opf.Gen
 
 def fbitsG (f : Float) : String := toString f.toBits.toNat
@@ -52,6 +55,20 @@ def runGmeas (toks : Array Int) : String :=
     | none => "ERR"
   s!"{conf} | {acc} | {per} | {pur}"
 
+def meanF (l : List Float) : Float := l.foldl (· + ·) 0.0 / l.length.toFloat
+def stdF (l : List Float) : Float :=
+  let m := meanF l
+  Float.sqrt ((l.map (fun v => (v - m) * (v - m))).foldl (· + ·) 0.0 / l.length.toFloat)
+
+def runGnorm (toks : Array Nat) : String :=
+  let r := toks.getD 0 0
+  let c := toks.getD 1 0
+  let data : Array (Array Float) := (Array.range r).map fun i =>
+    (toks.extract (2 + i * c) (2 + (i + 1) * c)).map (fun b => Float.ofBits b.toUInt64)
+  match NormImp.normalize meanF stdF data with
+  | none => "ERR"
+  | some out => " ".intercalate (out.toList.flatMap fun (row : Array Float) => row.toList.map fbitsG)
+
 partial def loopG (h : IO.FS.Stream) : IO Unit := do
   let line ← h.getLine
   if line.isEmpty then return ()
@@ -60,6 +77,8 @@ partial def loopG (h : IO.FS.Stream) : IO Unit := do
   | "gmeas" :: rest =>
     let toks := (rest.map (fun t => t.toInt?.getD 0)).toArray
     IO.println (runGmeas toks)
+  | "gnorm" :: rest =>
+    IO.println (runGnorm (rest.map (fun t => t.toNat?.getD 0)).toArray)
   | _ => IO.println "bad-op"
   loopG h
 
